@@ -80,6 +80,38 @@ def _run_one(cfile, ob, timeout, mem_kb, members):
     return Result(ob, UNDECIDED, secs, backend, 'cbmc verdict %s (solver gave no definite answer within %ss)' % (v, timeout))
 
 
+BATCH_KINDS = ('bounds', 'variant', 'inv_base', 'div', 'sqrt')
+BATCH_SIZE = int(os.environ.get('STV_BATCH', '10'))
+
+
+def run_batch(cfile, obs, timeout, mem_kb=8 * 1024 * 1024):
+    """cheap structural obligations of one harness checked in a single CBMC run; anything not SUCCESS is re-run alone"""
+    env = dict(os.environ)
+    env['PATH'] = PORTFOLIO + os.pathsep + env.get('PATH', '')
+    env['STV_SOLVER_TIMEOUT'] = str(min(timeout, 30))
+    env['STV_PORTFOLIO'] = os.environ.get('STV_PORTFOLIO_FIRST', 'z3new')
+    cmd = ['cbmc', cfile, '--z3', '--nondet-static', '--no-standard-checks']
+    for o in obs:
+        cmd += ['--property', 'main.assertion.%d' % o.index]
+    t0 = time.time()
+    out = ''
+    try:
+        p = subprocess.run(['bash', '-c', 'ulimit -v %d; exec "$@"' % mem_kb, 'x'] + cmd, stdout=subprocess.PIPE, stderr=subprocess.STDOUT,
+                           env=env, timeout=min(timeout, 30) + 60)
+        out = p.stdout.decode(errors='replace')
+    except subprocess.TimeoutExpired:
+        pass
+    secs = time.time() - t0
+    res = []
+    for o in obs:
+        m = re.search(r'^\[main\.assertion\.%d\] .*: (SUCCESS|FAILURE|ERROR|UNKNOWN)\s*$' % o.index, out, re.M)
+        if m and m.group(1) == 'SUCCESS':
+            res.append(Result(o, PROVED, secs / len(obs), 'z3new(batch)'))
+        else:
+            res.append(run_one(cfile, o, timeout, mem_kb))
+    return res
+
+
 def run_harness(h, workdir, timeout=60, jobs=16, only=None, pool=None):
     os.makedirs(workdir, exist_ok=True)
     safe = re.sub(r'[^A-Za-z0-9_.-]', '_', h.name)
@@ -92,12 +124,17 @@ def run_harness(h, workdir, timeout=60, jobs=16, only=None, pool=None):
     own = pool is None
     if own:
         pool = concurrent.futures.ThreadPoolExecutor(max_workers=jobs)
-    futs = [pool.submit(run_one, cfile, o, timeout) for o in obs]
+    singles = [o for o in obs if o.kind not in BATCH_KINDS]
+    batchable = [o for o in obs if o.kind in BATCH_KINDS]
+    futs = [pool.submit(lambda o=o: [run_one(cfile, o, timeout)]) for o in singles]
+    for i in range(0, len(batchable), BATCH_SIZE):
+        grp = batchable[i:i + BATCH_SIZE]
+        futs.append(pool.submit(run_batch, cfile, grp, timeout))
     if own:
         for f in futs:
-            r = f.result()
-            r.harness = h
-            results.append(r)
+            for r in f.result():
+                r.harness = h
+                results.append(r)
         pool.shutdown()
         return results
     return futs
